@@ -85,7 +85,12 @@ def replay_call(path, fname, call_src):
     custom = getattr(mod, "replay_" + fname, None)
     if custom is not None:
         # harness-provided concrete replay (e.g. materialises the grid and inspects the array)
-        rep = custom(**args)
+        try:
+            rep = custom(**args)
+        except Exception as e:  # noqa: BLE001  (an exception the property does not allow escapes from the real code)
+            if type(e).__name__ in raises:
+                return None
+            rep = {"what": f"{fname}: unexpected {type(e).__name__}: {e}", "observed": type(e).__name__, "expected": "post: " + "; ".join(posts)}
         if rep is not None:
             rep = dict(rep)
             rep["call"] = call_src
